@@ -5,6 +5,12 @@
   (AHP/Model/Builder.lean).  Helper lemmas: AHP/Lemmas/RoundTrip.lean (token level),
   AHP/Lemmas/LexRoundTrip.lean (character level).
 
+  Raw-text elements (`script` / `style`) are covered at character level: `ToksOK` (= `ListOK`) accepts the
+  block start tag / one data token / end tag provided the data nowhere matches the element's closing expression
+  `</ ws* name ws* >`, case-insensitively (`RawOK`, `Lemmas/LexRaw.lean` — exactly what `set_cdata_mode`'s
+  `interesting` expression searches for); inside, `<`, `&`, tags, comments and references are plain text.
+  `toksOK_of_lexOK_single` / `_multi` give a tree-level sufficient condition (`LNode.LexOK`).
+
   Documents are taken in *lexical normal form* (`LNode`): every text block is one text-like token of the
   tokenizer — which is the form of every tree a parse produces.  For trees built through the API with other
   text segmentations `html_norm` shows the serialisation does not depend on the segmentation, so the first
@@ -12,6 +18,7 @@
 -/
 import AHP.Lemmas.RoundTrip
 import AHP.Lemmas.LexRoundTrip
+import AHP.Lemmas.LexRawTree
 namespace AHP.C01
 open AHP AHP.Spec
 
@@ -192,12 +199,11 @@ theorem roundtrip_single (dt : Option Str) (n : Str) (a : AttrState) (sc : Bool)
         exact ih d0 (fun t' ht' => hall t' (List.mem_cons_of_mem _ ht'))
     have hno : ∀ t ∈ (LNode.elem n a sc kids).toks, ∀ x, t ≠ .decl x ∧ t ≠ .unknownDecl x := by
       intro t ht x
-      have hT := (ListOK.tokOK hok) t (List.mem_append_right _ ht)
       constructor
       · intro e; subst e
         -- a declaration among the element's tokens would have to be a text-like token of the tree: it is not
         exact decl_not_in _ hwf x ht
-      · intro e; subst e; exact absurd hT (by simp [TokOK])
+      · intro e; subst e; exact ListOK.no_unknownDecl hok x (List.mem_append_right _ ht)
     rw [hnd _ _ hno]
 
 /-! #### C01b — the second serialisation is identical -/
@@ -293,11 +299,59 @@ theorem roundtrip_multi (ks : List LNode) (hwf : WFLL ks) (hok : ToksOK (toksL k
       · subst e; simp
       · constructor
         · intro e; subst e; exact decl_not_inL ks hwf x ht
-        · intro e; subst e; exact absurd ((ListOK.tokOK hok) _ ht) (by simp [TokOK])
+        · intro e; subst e; exact ListOK.no_unknownDecl hok x ht
       · rcases e with e | e
         · subst e; simp
         · simp at e
     rw [hnd _ _ hno]
+
+/-! #### a tree-level sufficient condition for `ToksOK`, raw-text elements included -/
+
+/-- doctype text the serialiser's doctype line lexes back from -/
+def DoctypeOK (dt : Option Str) : Prop :=
+  match dt with
+  | some d => d.isEmpty = true ∨ (lower (d.take 7) = "doctype".toList ∧ '>' ∉ d)
+  | none => True
+
+/-- **C01 (side condition, single root).** A single-root document whose tree meets `LNode.LexOK` — text blocks
+    are well-formed text-like tokens, no two data runs adjacent, names and attribute views well formed, and the
+    content of every `script` / `style` element is at most ONE data token in which the element's closing
+    expression does not occur (it may contain `<`, `&`, `</div>`, comments …) — meets the hypothesis `ToksOK` of
+    `roundtrip_single`. -/
+theorem toksOK_of_lexOK_single (dt : Option Str) (n : Str) (a : AttrState) (sc : Bool) (kids : List LNode)
+    (hwf : (LNode.elem n a sc kids).WF) (hlex : (LNode.elem n a sc kids).LexOK) (hdt : DoctypeOK dt) :
+    ToksOK (doctypeToks dt ++ (LNode.elem n a sc kids).toks) := by
+  have hroot : ListOK ((LNode.elem n a sc kids).toks ++ []) :=
+    lnode_listOK _ hwf hlex [] .nil (fun h => by simp [isDataTok] at h)
+  rw [List.append_nil] at hroot
+  unfold ToksOK doctypeToks
+  cases dt with
+  | none => simpa using hroot
+  | some d =>
+    by_cases hd : d.isEmpty = true
+    · simpa [hd] using hroot
+    · simp only [hd, Bool.false_eq_true, if_false, List.cons_append, List.nil_append]
+      have hd' : lower (d.take 7) = "doctype".toList ∧ '>' ∉ d := by
+        rcases hdt with h | h
+        · exact absurd h hd
+        · exact h
+      refine .cons hd' trivial (.cons (Or.inr (Or.inr ⟨by simp, by decide⟩)) ?_ hroot)
+      -- the newline of the doctype line is followed by the root's start tag
+      have hne1 : (['\n'] : Str) ≠ ['<'] := by decide
+      have hne2 : (['\n'] : Str) ≠ ['&'] := by decide
+      simp only [Follows, hne1, hne2, if_false]
+      right
+      unfold LNode.toks
+      cases sc with
+      | true => exact ⟨_, Or.inl (by simp [renderToks, renderTok]; rfl)⟩
+      | false => exact ⟨_, Or.inl (by simp [renderToks, renderTok]; rfl)⟩
+
+/-- **C01 (side condition, multi-root).** The same for a forest of top-level blocks. -/
+theorem toksOK_of_lexOK_multi (ks : List LNode) (hwf : WFLL ks) (hlex : LexOKL ks) (hadj : NoAdjL ks) :
+    ToksOK (toksL ks) := by
+  have := lforest_listOK ks hwf hlex hadj [] .nil (Or.inl rfl)
+  rw [List.append_nil] at this
+  exact this
 
 /-! #### attribute stores without class / style / spellcheck are stable under re-reading -/
 
@@ -373,5 +427,49 @@ example : lexStrict "<div id=\"a&quot;b\" checked >x&amp;y<br /><!--c--></div>".
 example : lexStrict "<p >1 < 2 & 3&#x41;&#65;</p>".toList =
     some [.start "p".toList [], .data "1 ".toList, .data "<".toList, .data " 2 ".toList, .data "&".toList,
           .data " 3".toList, .charref "x41".toList, .charref "65".toList, .end_ "p".toList] := by decide
+
+/-! #### Non-vacuity with raw text: a `<script>` whose content has `<`, `&`, `</div>`, a comment opener and an
+       unfinished closing sequence, and a `<style>` with `>` and `&` — the hypotheses of `roundtrip_single`
+       hold, so its conclusion does -/
+
+/-- `<div ><script type="module" >if (a < b && c) { s = "</div>" + '</scr' + 'ipt>'; } <!-- &amp;</script><style >p > a { content: "&<" }</style><p >x</p></div>` -/
+def exRawKids : List LNode :=
+  [ .elem "script".toList ⟨[("type".toList, some "module".toList)], [], []⟩ false
+      [.tok (.data "if (a < b && c) { s = \"</div>\" + '</scr' + 'ipt>'; } <!-- &amp;".toList)],
+    .elem "style".toList AttrState.empty false [.tok (.data "p > a { content: \"&<\" }".toList)],
+    .elem "p".toList AttrState.empty false [.tok (.data "x".toList)] ]
+
+theorem exRaw_wf : (LNode.elem "div".toList AttrState.empty false exRawKids).WF := by
+  simp only [LNode.WF, WFLL, exRawKids, Spec.textOf]
+  decide
+
+theorem exRaw_lexOK : (LNode.elem "div".toList AttrState.empty false exRawKids).LexOK := by
+  simp only [LNode.LexOK, LexOKL, NoAdjL, RawKidsOK, exRawKids, isDataTok]
+  decide
+
+example : ∃ toks,
+    lexStrict (docHTML (some "DOCTYPE html".toList) (LNode.elem "div".toList AttrState.empty false exRawKids).toNode)
+      = some toks ∧
+    feedTokens toks = .doc ⟨some "DOCTYPE html".toList,
+      some (LNode.elem "div".toList AttrState.empty false exRawKids).toNode.reintake⟩ false :=
+  roundtrip_single (some "DOCTYPE html".toList) "div".toList AttrState.empty false exRawKids exRaw_wf (by decide)
+    (toksOK_of_lexOK_single _ _ _ _ _ exRaw_wf exRaw_lexOK (Or.inr (by decide)))
+
+-- the serialisation in question, spelled out
+set_option maxRecDepth 8192 in
+example : docHTML none (LNode.elem "div".toList AttrState.empty false exRawKids).toNode
+    = ("<div ><script type=\"module\" >if (a < b && c) { s = \"</div>\" + '</scr' + 'ipt>'; } <!-- &amp;</script>"
+       ++ "<style >p > a { content: \"&<\" }</style><p >x</p></div>").toList := by decide
+
+/-- the side condition is needed: with the closing expression inside the content the text comes back cut -/
+example : lexStrict "<script >a</ SCRIPT >b</script>".toList
+    = some [.start "script".toList [], .data "a".toList, .end_ "script".toList, .data "b".toList,
+            .end_ "script".toList] := by decide
+
+/-- a multi-root forest with an empty `<script>` and a `<style>`: hypotheses of `roundtrip_multi` -/
+example : ToksOK (toksL [.elem "script".toList AttrState.empty false [],
+    .elem "style".toList AttrState.empty false [.tok (.data "a<b".toList)]]) :=
+  toksOK_of_lexOK_multi _ (by simp only [WFLL, LNode.WF, Spec.textOf]; decide)
+    (by simp only [LexOKL, LNode.LexOK, RawKidsOK, NoAdjL]; decide) (by simp [NoAdjL, isDataTok])
 
 end AHP.C01
